@@ -1246,6 +1246,8 @@ func (x *Exec) rangeNext(st *State, i *ssa.Next) {
 // ---- loops ----
 
 func (x *Exec) loopHeads(fn *ssa.Function) map[*ssa.BasicBlock]int {
+	x.v.mu.Lock()
+	defer x.v.mu.Unlock()
 	if m, ok := x.v.loopCache[fn]; ok {
 		return m
 	}
@@ -1575,8 +1577,8 @@ func (x *Exec) frameCheck(st *State, snap *Snapshot, targets map[string][]string
 			}
 			exc = append(exc, not(eq(r, ref)))
 		}
-		// objects allocated since the snapshot are never part of the frame
-		exc = append(exc, app("<", app("birth", r), snap.now))
+		// objects allocated since the snapshot are never part of the frame; reference 0 is nil (no object)
+		exc = append(exc, app("<", app("birth", r), snap.now), not(eq(r, "0")))
 		goal := implies(and(exc...), eq(sel(cur, r), sel(old, r)))
 		x.emit(st, "frame", name+"@"+n, goal, tags, "only declared locations of "+n+" are modified", token.NoPos)
 	}
